@@ -2,6 +2,7 @@
 import os
 from .. import astq, structure as S
 from ..facts import AnalysisBroken, walk
+from . import common
 
 EXPLANATION = (
     "Table-agreement and guard-dominance analysis of the re-enabled ('disabled') opcodes. R17.1: the three label sets that "
@@ -52,8 +53,8 @@ def run(ctx, anchors=None):
         labs = None
         rest = []
         for c in cj:
-            l = eq_opcode_labels(c, is_opcode)
-            if l and len(l) >= 8:
+            l = common.opcode_predicate_set(prog, opstep, c, is_opcode)
+            if l and 8 <= len(l) <= 64:
                 labs = l
             else:
                 rest.append(c)
